@@ -108,7 +108,7 @@ PROPS = {
                      "NOT covered: TCPCL stage machines above the message switch, coverage-guided mutation of arbitrary byte strings (faults are structured: cuts, stalls, length/count fields, JSON node types)"],
             "assumptions": COMMON_ASSUME + ["allocation is measured with runtime.MemStats.TotalAlloc (process-wide): the bound is 4 MiB + 2 x bytes delivered and an excess must be measured twice; declared sizes up to 2^16 are below that resolution",
                                             "worker processes run under RLIMIT_AS = 8 GiB so that a successful giant allocation cannot take the machine down; a dying worker is reported as a process-crash violation",
-                                            "'never loops for ever' for whole-message decoders is a 20 s real-time watchdog per decode (never fires on the unchanged tree; it does not influence a run that returns)",
+                                            "'never loops for ever' for whole-message decoders is a 45 s real-time watchdog per decode that must fire twice on the same input (never fires on the unchanged tree; it does not influence a run that returns)",
                                             "the xz dictionary-size field is only driven up to 64 MiB (of 4 GiB): the recorded finding makes larger values kill the worker"],
             "required_probes": ["stream_cut", "stream_stall", "field_corrupt", "hostile_segment_mru", "datagram_cut", "kind_eid", "kind_admin", "kind_block", "kind_bundle", "family_frag", "family_cbor", "family_xz", "rest/build", "wam_type_2"]},
     "C07": {"parts": [
@@ -181,7 +181,7 @@ MANIFEST_TEXT = {
                     "a stall after every length/count field, every length/count field set to each boundary value; hostile peer-declared segment MRUs on the sending side. Whole-message decoders (discovery announcements, "
                     "administrative records, all extension blocks, bundles with a status report, endpoint-ID strings, WebSocket-agent messages, REST requests incl. build, BBC fragments / transmissions / xz): truncation at every "
                     "offset, every CBOR length/count (or number / JSON node / fragment identifier / xz dictionary size) set to boundary or alternative values. Oracle: the decoding task returns or is durably blocked on the stream "
-                    "(synctest quiescence; 20 s watchdog for whole messages), nothing escapes as a panic / dead process, allocation stays within 4 MiB + 2 x delivered bytes. Not coverage-guided: arbitrary byte strings are not explored.",
+                    "(synctest quiescence; 45 s watchdog for whole messages), nothing escapes as a panic / dead process, allocation stays within 4 MiB + 2 x delivered bytes. Not coverage-guided: arbitrary byte strings are not explored.",
             "design_ref": "DESIGN.md §4 C04, §8.3", "note": "trusted: synctest quiescence as the 'blocked on the stream' observation, MemStats as allocation measure; messages are sampled, faults per message are enumerated; no coverage-guided mutation (outside this technique)", "technique": DST + " (fault enumeration per run)"},
     "C07": {"text": "Seeded register/unregister/deliver/fetch histories on the real Core + AgentManager + MuxAgent + RestAgent + PingAgent with mock agents and scripted peers; oracle from the registration set at each "
                     "delivery: every registered recipient of exactly that endpoint gets the bundle once (mock agents: hand-over count; REST clients: all fetches together return it exactly once), nobody else, "
